@@ -502,3 +502,50 @@ Proof.
     destruct ((p =? ch_plus) || (p =? ch_minus))%N; [discriminate|congruence].
   - rewrite (from_time_string_not16 _ E). cbn [obind]. cbn. congruence.
 Qed.
+
+(* ------------------------------------------------------------------ the edge of the representable range *)
+(* A domain fact, not a finding: the two-digit year is the LOCAL year, so an
+   instant whose local civil time falls in the day before 2000-01-01 or the
+   day after 2099-12-31 (which happens for instants of 2000..2099 within 12 h
+   of either end, in a suitable zone) has no valid 16-character form;
+   Time.String then prints "-1..." resp. seventeen characters. *)
+Lemma abs_fields_bad_first c rest : dig c = None -> abs_fields (c :: rest) = None.
+Proof.
+  intros H.
+  do 15 (destruct rest as [|? rest]; [reflexivity|]).
+  destruct rest; [|reflexivity]. unfold abs_fields, dig2. rewrite H. reflexivity.
+Qed.
+
+Theorem time_domain_edge t q : -48 <= q <= 48 ->
+  (-864000 <= t + q * 9000 < 0 \/ 36525 * 864000 <= t + q * 9000 < 36526 * 864000) ->
+  exists s, time_format (t, q) = Ok s /\ valid_abs_time s = false.
+Proof.
+  intros Hq [Hl|Hl].
+  - set (r := t + q * 9000 + 864000).
+    assert (Hr : 0 <= r < 864000) by (subst r; lia).
+    assert (Hlr : t + q * 9000 = (-1) * 864000 + r) by (subst r; lia).
+    assert (Hz : t <> zero_instant) by (rewrite zero_instant_val; lia).
+    assert (Hc : civil2000 (-1) = (1999, 12, 31)) by reflexivity.
+    rewrite (time_format_local t q (-1) r _ _ _ Hlr Hr Hc Hz).
+    eexists. split; [reflexivity|].
+    unfold time_string_of_parts. cbn [p_yy p_mo p_dd p_hh p_mi p_ss p_t p_q].
+    change (fmt_02d (1999 - 2000)) with [45; 49]%N. cbn [app].
+    unfold valid_abs_time. rewrite abs_fields_bad_first by reflexivity. reflexivity.
+  - set (r := t + q * 9000 - 36525 * 864000).
+    assert (Hr : 0 <= r < 864000) by (subst r; lia).
+    assert (Hlr : t + q * 9000 = 36525 * 864000 + r) by (subst r; lia).
+    assert (Hz : t <> zero_instant) by (rewrite zero_instant_val; lia).
+    assert (Hc : civil2000 36525 = (2100, 1, 1)) by reflexivity.
+    rewrite (time_format_local t q 36525 r _ _ _ Hlr Hr Hc Hz).
+    eexists. split; [reflexivity|].
+    destruct (tod_split r Hr) as (Hhh & Hmi & Hss & Ht & _).
+    unfold time_string_of_parts. cbn [p_yy p_mo p_dd p_hh p_mi p_ss p_t p_q].
+    change (fmt_02d (2100 - 2000)) with [49; 48; 48]%N.
+    change (fmt_02d 1) with [48; 49]%N.
+    destruct (two_facts (r / 10 / 3600) ltac:(lia)) as (-> & _ & _).
+    destruct (two_facts ((r / 10) mod 3600 / 60) ltac:(lia)) as (-> & _ & _).
+    destruct (two_facts ((r / 10) mod 60) ltac:(lia)) as (-> & _ & _).
+    destruct (two_facts (Z.abs q) ltac:(lia)) as (-> & _ & _).
+    destruct (one_facts (r mod 10) Ht) as (-> & _ & _).
+    reflexivity.
+Qed.
